@@ -4,6 +4,7 @@ import hashlib
 import importlib
 import json
 import os
+import re
 import shlex
 import shutil
 import subprocess
@@ -332,8 +333,10 @@ def load_known_findings():
             if not line.startswith('finding:'):
                 continue
             body, _, text = line[len('finding:'):].partition(' :: ')
-            kv = dict(tok.split('=', 1) for tok in body.split() if '=' in tok)
-            out.append({'property': kv.get('property'), 'rule': kv.get('rule'), 'key': kv.get('key'), 'text': text.strip()})
+            m = re.match(r'\s*property=(\S+)\s+rule=(\S+)\s+key=(.*?)\s*$', body)   # the key may contain blanks (parameter lists)
+            if not m:
+                continue
+            out.append({'property': m.group(1), 'rule': m.group(2), 'key': m.group(3), 'text': text.strip()})
     return out
 
 
